@@ -1,6 +1,7 @@
 package rules
 
 import (
+	"go/types"
 	"go/ast"
 	"go/token"
 	"strings"
@@ -48,6 +49,15 @@ func runC20(p *eng.Prog, r *eng.Report, tier string) {
 	}
 	g := f.Graph()
 	hname := "p1"
+	// ---- C20.4b the encoder's output buffer never overlaps the digest ----------
+	nenc := 0
+	for _, cl := range f.Calls("encoding/base64.Encoding.Encode") {
+		nenc++
+		pt, _ := g.Where(cl)
+		okf, why := freshSlice(f, cl.Args[0], pt, map[*eng.Def]bool{})
+		c.r.Check("C20.4", f, "base64 output buffer", "E-alias: the destination of base64 Encode is freshly allocated on every path (Encode on overlapping memory overwrites digest bytes it has not read: AppendHash(buf[:0]) would differ from Hash)", cl.Pos(), okf, why)
+	}
+	c.r.Floor("C20.4", "base64 Encode calls in AppendHash", nenc, 1)
 	// ---- C20.1 sorted before hashed -----------------------------------------------
 	n := 0
 	sortCalls := append(append(f.Calls("sort.Slice"), f.Calls("sort.SliceStable")...), f.Calls("sort.Strings")...)
@@ -286,4 +296,52 @@ func runC20(p *eng.Prog, r *eng.Report, tier string) {
 		c09IndexID(c, "C20.5", sf, "disco.Info.AppendHash")
 		// nil receiver: methods of *Data used on decoded (possibly nil) forms test the receiver before touching fields
 	}
+}
+
+// freshSlice: on every path the slice e denotes memory allocated in this
+// function by make (possibly re-sliced), never a parameter or another value.
+func freshSlice(f *eng.Fn, e ast.Expr, pt eng.Point, seen map[*eng.Def]bool) (bool, string) {
+	g := f.Graph()
+	switch x := ast.Unparen(e).(type) {
+	case *ast.CallExpr:
+		if f.CalleeID(x) == "builtin.make" {
+			return true, ""
+		}
+		return false, "destination is the result of " + f.CalleeID(x)
+	case *ast.SliceExpr:
+		return freshSlice(f, x.X, pt, seen)
+	case *ast.Ident:
+		v, ok := f.Info().ObjectOf(x).(*types.Var)
+		if !ok || !eng.IsLocal(v) {
+			return false, "destination " + x.Name + " is not a local"
+		}
+		ds := g.ReachingDefs(v, pt)
+		if len(ds) == 0 {
+			return false, "no definition of " + x.Name + " reaches the call"
+		}
+		for _, d := range ds {
+			if seen[d] {
+				continue
+			}
+			seen[d] = true
+			if d.Kind != eng.DefPlain || d.RHS == nil {
+				return false, x.Name + " may be " + defKindName(d) + " (not allocated here)"
+			}
+			if ok, why := freshSlice(f, d.RHS, d.At, seen); !ok {
+				return false, x.Name + " may alias other memory: " + why
+			}
+		}
+		return true, ""
+	}
+	return false, "destination " + f.Norm(e, nil) + " is not a fresh allocation"
+}
+
+func defKindName(d *eng.Def) string {
+	switch d.Kind {
+	case eng.DefParam:
+		return "a parameter"
+	case eng.DefZero:
+		return "a zero value"
+	}
+	return "defined at " + d.Var.Name()
 }
